@@ -380,4 +380,504 @@ Proof.
   apply (round_near _ _ _ _ _ _ E); [side|assumption|side].
 Qed.
 
+(** ------------------------------------------------------------------------------
+    the environment: cell size, cell ratio, pixels per cell *)
+Definition cwp (fam : family) (e : env FA) : Z :=
+  match fam with Text => 1 | Graphics => fst (cell_or_default e) end.
+Definition chp (fam : family) (e : env FA) : Z :=
+  match fam with Text => 2 | Graphics => snd (cell_or_default e) end.
+
+Definition cell_ok (e : env FA) : Prop :=
+  match e_cell e with
+  | Some (cw, ch) => (1 <= cw <= 2 ^ 12 /\ 1 <= ch <= 2 ^ 12)%Z
+  | None => True
+  end.
+Definition ratio_ok (e : env FA) : Prop :=
+  match e_ratio e with
+  | Some r => fin r /\ itwo 30 <= v r /\ v r <= two 30
+  | None => True
+  end.
+
+Lemma cell_default_ok : forall (e : env FA), cell_ok e ->
+  (1 <= fst (cell_or_default e) <= 2 ^ 12 /\ 1 <= snd (cell_or_default e) <= 2 ^ 12)%Z.
+Proof.
+  intros e H. unfold cell_ok, cell_or_default in *. destruct (e_cell e) as [[cw ch]|]; cbn; lia.
+Qed.
+
+Lemma cwp_ok : forall fam e, cell_ok e -> (1 <= cwp fam e <= 2 ^ 12)%Z.
+Proof. intros fam e H. destruct (cell_default_ok e H). destruct fam; cbn; lia. Qed.
+Lemma chp_ok : forall fam e, cell_ok e -> (1 <= chp fam e <= 2 ^ 12)%Z.
+Proof. intros fam e H. destruct (cell_default_ok e H). destruct fam; cbn; lia. Qed.
+
+Lemma Ap_small : forall z, (1 <= z <= 2 ^ 12)%Z -> Ap (ofZ z) (QZ z) 1 1 1 (two 12).
+Proof.
+  intros z Hz. apply Ap_ofZ; try lia.
+  - change 1 with (QZ 1). rewrite <- Zle_Qle. lia.
+  - unfold two. rewrite <- Zle_Qle. lia.
+Qed.
+
+Lemma pr_ok : forall fam e, cell_ok e -> ratio_ok e -> PR (pixel_ratio fam e).
+Proof.
+  intros fam e Hc Hr. unfold pixel_ratio. destruct fam.
+  - (* text: get_cell_ratio() * 2 *)
+    assert (A2 : Ap (ofZ 2) (QZ 2) 1 1 2 2).
+    { apply Ap_ofZ; try lia; change (QZ 2) with 2; lra. }
+    unfold get_cell_ratio, ratio_ok in *. destruct (e_ratio e) as [r|].
+    + destruct Hr as (Fr & Lr & Ur).
+      assert (Ar : Ap r (v r) 1 1 (itwo 30) (two 30)) by (constructor; auto; lra).
+      assert (A : Ap (fmul r (ofZ 2)) (v r * QZ 2) (L 1) (H 1) (itwo 29) (two 31)).
+      { apply (Ap_mul_w SM _ _ _ _ _ _ _ _ _ _ _ _ _ _ _ _ Ar A2). side. }
+      destruct (Ap_pos SM _ _ _ _ _ _ A ltac:(side)) as (_ & _ & Lo & Hi).
+      destruct A as [Fa Alo Ahi _ _]. split; [assumption|].
+      split; [apply Qle_trans with (itwo 29 * (1 # 2)); [qdec|nra]
+             |apply Qle_trans with (two 31 * 2); [nra|qdec]].
+    + destruct (cell_default_ok e Hc) as [Hw Hh].
+      destruct (cell_or_default e) as [cw ch]. cbn [fst snd] in *.
+      assert (A1 : Ap (fdiv (ofZ cw) (ofZ ch)) (QZ cw / QZ ch) (L 1) (H 1) (itwo 12) (two 12)).
+      { apply (Ap_div_w SM _ _ _ _ _ _ _ _ _ _ _ _ _ _ _ _ (Ap_small cw Hw) (Ap_small ch Hh)). side. }
+      assert (A : Ap (fmul (fdiv (ofZ cw) (ofZ ch)) (ofZ 2)) (QZ cw / QZ ch * QZ 2)
+                     (L 2) (H 2) (itwo 11) (two 13)).
+      { apply (Ap_mul_w SM _ _ _ _ _ _ _ _ _ _ _ _ _ _ _ _ A1 A2). side. }
+      destruct (Ap_pos SM _ _ _ _ _ _ A ltac:(side)) as (_ & _ & Lo & Hi).
+      destruct A as [Fa Alo Ahi _ _]. split; [assumption|].
+      split; [apply Qle_trans with (itwo 11 * (1 # 2)); [qdec|nra]
+             |apply Qle_trans with (two 13 * 2); [nra|qdec]].
+  - (* graphics: 1.0 *)
+    destruct (ofZ_ok SM 1 ltac:(vm_compute; discriminate)) as [F1 V1].
+    split; [assumption|]. rewrite V1. change (QZ 1) with 1. split; qdec.
+Qed.
+
+(** the conversions, as integer arithmetic *)
+Lemma px_of_cols_eq : forall fam (e : env FA) c, px_of_cols fam e c = (c * cwp fam e)%Z.
+Proof. intros. destruct fam; cbn; lia. Qed.
+Lemma px_of_lines_eq : forall fam (e : env FA) l, px_of_lines fam e l = (l * chp fam e)%Z.
+Proof. intros. destruct fam; cbn; lia. Qed.
+Lemma cols_of_px_eq : forall fam (e : env FA) p, cols_of_px fam e p = (p / cwp fam e)%Z.
+Proof. intros. destruct fam; cbn; [rewrite Z.div_1_r|]; reflexivity. Qed.
+
+Lemma Qceiling_half : forall p, Qceiling (QZ p / 2) = ((p + 1) / 2)%Z.
+Proof.
+  intros p. unfold Qceiling.
+  assert (E : - (QZ p / 2) == QZ (- p) / QZ 2).
+  { rewrite inject_Z_opp. change (QZ 2) with 2. field. }
+  rewrite (Qfloor_comp _ _ E), <- Zdiv_Qdiv. Z.div_mod_to_equations. lia.
+Qed.
+
+Lemma text_lines_of_px : forall (e : env FA) p, (0 <= p <= 2 ^ 53)%Z ->
+  lines_of_px Text e p = ((p + 1) / 2)%Z.
+Proof.
+  intros e p Hp. cbn [lines_of_px].
+  destruct (ofZ_ok SM p ltac:(lia)) as [Fp Vp].
+  destruct (ofZ_ok SM 2 ltac:(vm_compute; discriminate)) as [F2 V2].
+  assert (E : v (ofZ p) / v (ofZ 2) == QZ p / 2) by (rewrite Vp, V2; reflexivity).
+  assert (P0 : 0 <= QZ p) by (change 0 with (QZ 0); rewrite <- Zle_Qle; lia).
+  assert (P1 : QZ p <= QZ (2 ^ 53)) by (rewrite <- Zle_Qle; lia).
+  assert (R : Qabs (v (ofZ p) / v (ofZ 2)) <= fbig).
+  { rewrite E, Qabs_pos.
+    - apply Qle_trans with (QZ (2 ^ 53)); [|qdec].
+      change (QZ p / 2) with (QZ p * (1 # 2)). lra.
+    - change (QZ p / 2) with (QZ p * (1 # 2)). lra. }
+  assert (Nz : ~ v (ofZ 2) == 0) by (rewrite V2; discriminate).
+  destruct (div_ok SM _ _ Fp F2 Nz R) as [Fd Vd].
+  rewrite (ceil_ok SM _ Fd).
+  assert (Ev : v (fdiv (ofZ p) (ofZ 2)) == QZ p / 2).
+  { rewrite Vd, (rnd_comp SM _ _ E). apply rnd_half. lia. }
+  unfold Qceiling. rewrite (Qfloor_comp _ _ (Qopp_comp _ _ Ev)).
+  apply Qceiling_half.
+Qed.
+
+Lemma lines_of_px_near : forall fam (e : env FA) p X, cell_ok e -> (0 <= p <= 2 ^ 53)%Z ->
+  X - (1 # 2) - delta <= QZ p -> QZ p <= X + (1 # 2) + delta ->
+  nearP (or1 (lines_of_px fam e p)) (X / QZ (chp fam e)).
+Proof.
+  intros fam e p X Hc Hp Hl Hh. destruct fam.
+  - rewrite text_lines_of_px by assumption. cbn [chp]. change (QZ 2) with 2.
+    apply near_ceil2; try assumption; lia.
+  - cbn [lines_of_px chp]. destruct (cell_default_ok e Hc).
+    apply near_floor; try assumption; lia.
+Qed.
+
+Lemma cols_of_px_near : forall fam (e : env FA) p X, cell_ok e -> (0 <= p)%Z ->
+  X - (1 # 2) - delta <= QZ p -> QZ p <= X + (1 # 2) + delta ->
+  nearP (or1 (cols_of_px fam e p)) (X / QZ (cwp fam e)).
+Proof.
+  intros fam e p X Hc Hp Hl Hh. rewrite cols_of_px_eq.
+  pose proof (cwp_ok fam e Hc). apply near_floor; try assumption; lia.
+Qed.
+
+Lemma lines_of_px_nonneg : forall fam (e : env FA) p, cell_ok e -> (0 <= p <= 2 ^ 53)%Z ->
+  (0 <= lines_of_px fam e p)%Z.
+Proof.
+  intros fam e p Hc Hp. destruct fam.
+  - rewrite text_lines_of_px by assumption. Z.div_mod_to_equations. lia.
+  - cbn [lines_of_px]. destruct (cell_default_ok e Hc). apply Z.div_pos; lia.
+Qed.
+Lemma cols_of_px_nonneg : forall fam (e : env FA) p, cell_ok e -> (0 <= p)%Z -> (0 <= cols_of_px fam e p)%Z.
+Proof.
+  intros fam e p Hc Hp. rewrite cols_of_px_eq. pose proof (cwp_ok fam e Hc). apply Z.div_pos; lia.
+Qed.
+
+(** cells -> pixels -> cells is the identity; pixels -> cells is monotone *)
+Lemma cols_roundtrip : forall fam (e : env FA) c, cell_ok e -> cols_of_px fam e (px_of_cols fam e c) = c.
+Proof.
+  intros fam e c Hc. rewrite cols_of_px_eq, px_of_cols_eq. pose proof (cwp_ok fam e Hc).
+  apply Z.div_mul. lia.
+Qed.
+Lemma lines_roundtrip : forall fam (e : env FA) l, cell_ok e -> (0 <= l)%Z ->
+  (px_of_lines fam e l <= 2 ^ 53)%Z -> lines_of_px fam e (px_of_lines fam e l) = l.
+Proof.
+  intros fam e l Hc Hl Hb. destruct fam.
+  - rewrite text_lines_of_px; cbn [px_of_lines] in *; [|lia]. Z.div_mod_to_equations. lia.
+  - cbn [lines_of_px px_of_lines]. destruct (cell_default_ok e Hc). apply Z.div_mul. lia.
+Qed.
+Lemma cols_mono : forall fam (e : env FA) p q, cell_ok e -> (p <= q)%Z ->
+  (cols_of_px fam e p <= cols_of_px fam e q)%Z.
+Proof.
+  intros fam e p q Hc H. rewrite !cols_of_px_eq. pose proof (cwp_ok fam e Hc).
+  apply Z.div_le_mono; lia.
+Qed.
+Lemma lines_mono : forall fam (e : env FA) p q, cell_ok e -> (0 <= p)%Z -> (p <= q)%Z -> (q <= 2 ^ 53)%Z ->
+  (lines_of_px fam e p <= lines_of_px fam e q)%Z.
+Proof.
+  intros fam e p q Hc H0 H H1. destruct fam.
+  - rewrite !text_lines_of_px by lia. apply Z.div_le_mono; lia.
+  - cbn [lines_of_px]. destruct (cell_default_ok e Hc). apply Z.div_le_mono; lia.
+Qed.
+
+(** ------------------------------------------------------------------------------
+    the theorems about [valid_size] *)
+Definition columns (e : env FA) (frame : Z * Z) : Z := resolve (fst frame) (e_cols e).
+Definition lines (e : env FA) (frame : Z * Z) : Z := resolve (snd frame) (e_lines e).
+Definition fwpx (fam : family) (e : env FA) (frame : Z * Z) : Z :=
+  px_of_cols fam e (columns e frame).
+Definition fhpx (fam : family) (e : env FA) (frame : Z * Z) : Z :=
+  px_of_lines fam e (lines e frame).
+
+(** the domain of the theorems: source dimensions in [1, 2^30), cell size in
+    [1, 2^12], a fixed cell ratio in [2^-30, 2^30] ... *)
+Record Dom0 (e : env FA) (ow oh : Z) : Prop := {
+  d_ow : dim30 ow; d_oh : dim30 oh; d_cell : cell_ok e; d_ratio : ratio_ok e
+}.
+(** ... and a frame whose pixel dimensions are below 2^30 *)
+Record Dom (fam : family) (e : env FA) (ow oh : Z) (frame : Z * Z) : Prop := {
+  d_0 : Dom0 e ow oh;
+  d_fw : dim30 (fwpx fam e frame);
+  d_fh : dim30 (fhpx fam e frame)
+}.
+
+Lemma resolve_pos : forall fd td, (1 <= resolve fd td)%Z.
+Proof. intros. unfold resolve. destruct (0 <? fd)%Z eqn:E; [apply Z.ltb_lt in E|]; lia. Qed.
+
+Lemma frame_cells : forall fam (e : env FA) ow oh frame, Dom fam e ow oh frame ->
+  (1 <= columns e frame)%Z /\ (1 <= lines e frame)%Z /\
+  cols_of_px fam e (fwpx fam e frame) = columns e frame /\
+  lines_of_px fam e (fhpx fam e frame) = lines e frame.
+Proof.
+  intros fam e ow oh frame [[_ _ Hc _] Hfw Hfh].
+  pose proof (resolve_pos (fst frame) (e_cols e)). pose proof (resolve_pos (snd frame) (e_lines e)).
+  unfold fwpx, fhpx in *. unfold columns, lines in *. repeat split; try assumption.
+  - apply cols_roundtrip. assumption.
+  - apply lines_roundtrip; try assumption; [lia|]. destruct Hfh. lia.
+Qed.
+
+Definition pr_of (fam : family) (e : env FA) : F FA := pixel_ratio fam e.
+
+(** FIT (common.py:1784-1817) *)
+Lemma valid_size_fit : forall fam (e : env FA) ow oh frame,
+  valid_size fam e ow oh (DSize FIT) DNone frame =
+  let '(wpx, hpx) := fit_px (pr_of fam e) ow oh (fwpx fam e frame) (fhpx fam e frame) in
+  (or1 (cols_of_px fam e wpx), or1 (lines_of_px fam e hpx)).
+Proof. reflexivity. Qed.
+
+Lemma fit_spec : forall fam (e : env FA) ow oh frame, Dom fam e ow oh frame ->
+  let '(a, b) := valid_size fam e ow oh (DSize FIT) DNone frame in
+  (0 < a)%Z /\ (0 < b)%Z /\ (a <= columns e frame)%Z /\ (b <= lines e frame)%Z /\
+  ((a = columns e frame /\
+    nearP b (HX (pr_of fam e) ow oh (fwpx fam e frame) / QZ (chp fam e))) \/
+   (b = lines e frame /\
+    nearP a (WX (pr_of fam e) ow oh (fhpx fam e frame) / QZ (cwp fam e)))).
+Proof.
+  intros fam e ow oh frame D. rewrite valid_size_fit.
+  destruct (frame_cells _ _ _ _ _ D) as (C1 & L1 & Rc & Rl).
+  destruct D as [[How Hoh Hc Hr] Hfw Hfh].
+  pose proof (pr_ok fam e Hc Hr) as Hpr.
+  pose proof (fit_px_spec (pr_of fam e) ow oh _ _ How Hoh Hfw Hfh Hpr) as S.
+  destruct (fit_px (pr_of fam e) ow oh (fwpx fam e frame) (fhpx fam e frame)) as [wpx hpx].
+  destruct S as (Sw & Sh & Sc).
+  assert (B53 : (fhpx fam e frame <= 2 ^ 53)%Z) by (destruct Hfh; lia).
+  assert (Ha : (or1 (cols_of_px fam e wpx) <= columns e frame)%Z).
+  { apply or1_le; [|assumption]. rewrite <- Rc. apply cols_mono; [assumption|lia]. }
+  assert (Hb : (or1 (lines_of_px fam e hpx) <= lines e frame)%Z).
+  { apply or1_le; [|assumption]. rewrite <- Rl. apply lines_mono; try assumption; lia. }
+  split; [apply or1_pos, cols_of_px_nonneg; [assumption|lia]|].
+  split; [apply or1_pos, lines_of_px_nonneg; [assumption|lia]|].
+  split; [assumption|]. split; [assumption|].
+  destruct Sc as [(E & Nl & Nh)|(E & Nl & Nh)]; [left|right]; subst.
+  - split; [rewrite Rc; apply or1_id; lia|].
+    apply lines_of_px_near; try assumption; lia.
+  - split; [rewrite Rl; apply or1_id; lia|].
+    apply cols_of_px_near; try assumption; lia.
+Qed.
+
+(** ORIGINAL (common.py:1777-1782) *)
+Lemma valid_size_original : forall fam (e : env FA) ow oh frame,
+  valid_size fam e ow oh (DSize ORIGINAL) DNone frame =
+  (or1 (cols_of_px fam e ow), or1 (lines_of_px fam e (original_hpx fam e oh))).
+Proof. reflexivity. Qed.
+
+Lemma original_spec : forall fam (e : env FA) ow oh frame, Dom0 e ow oh ->
+  QZ oh * v (pr_of fam e) <= two 40 ->
+  let '(a, b) := valid_size fam e ow oh (DSize ORIGINAL) DNone frame in
+  (0 < a)%Z /\ (0 < b)%Z /\
+  nearP a (QZ ow / QZ (cwp fam e)) /\ nearP b (QZ oh * v (pr_of fam e) / QZ (chp fam e)).
+Proof.
+  intros fam e ow oh frame [How Hoh Hc Hr] Hb. rewrite valid_size_original.
+  pose proof (pr_ok fam e Hc Hr) as Hpr.
+  destruct (original_hpx_spec (pr_of fam e) oh Hoh Hpr Hb) as ((P0 & P1) & Nl & Nh).
+  unfold original_hpx, pr_of in *.
+  destruct How as [Ho1 Ho2].
+  assert (D : 0 <= delta) by qdec.
+  split; [apply or1_pos, cols_of_px_nonneg; [assumption|lia]|].
+  split; [apply or1_pos, lines_of_px_nonneg; [assumption|lia]|].
+  split.
+  - apply cols_of_px_near; try assumption; try lia; lra.
+  - apply lines_of_px_near; try assumption; lia.
+Qed.
+
+(** AUTO (common.py:1756-1765): ORIGINAL when ORIGINAL's own pixel size fits the
+    frame's pixel area, FIT otherwise *)
+Lemma auto_original_iff_fits : forall fam (e : env FA) ow oh frame,
+  valid_size fam e ow oh (DSize AUTO) DNone frame =
+  if ((ow <=? fwpx fam e frame) && (original_hpx fam e oh <=? fhpx fam e frame))%Z
+  then valid_size fam e ow oh (DSize ORIGINAL) DNone frame
+  else valid_size fam e ow oh (DSize FIT) DNone frame.
+Proof.
+  intros. unfold valid_size. cbn [has dim_is smode_eqb orb].
+  fold (columns e frame) (lines e frame). fold (fwpx fam e frame) (fhpx fam e frame).
+  rewrite (Z.ltb_antisym ow), (Z.ltb_antisym (original_hpx fam e oh)).
+  destruct (ow <=? fwpx fam e frame)%Z, (original_hpx fam e oh <=? fhpx fam e frame)%Z; reflexivity.
+Qed.
+
+(** ORIGINAL's pixel height is the round-half-even of the correctly rounded product *)
+Lemma original_hpx_value : forall fam (e : env FA) oh, dim30 oh -> cell_ok e -> ratio_ok e ->
+  original_hpx fam e oh = rhe (rnd SM (QZ oh * v (pr_of fam e))).
+Proof.
+  intros fam e oh Hoh Hc Hr. unfold original_hpx, pr_of.
+  pose proof (pr_ok fam e Hc Hr) as Hpr.
+  assert (A : Ap (fmul (ofZ oh) (pixel_ratio fam e)) (QZ oh * v (pixel_ratio fam e))
+                 (L 1) (H 1) (itwo 32) (two 62)).
+  { apply (Ap_mul_w SM _ _ _ _ _ _ _ _ _ _ _ _ _ _ _ _ (Ap_dim oh Hoh) (Ap_pr _ Hpr)). side. }
+  rewrite (fround_rhe SM); [|destruct A; assumption].
+  destruct Hpr as (Fp & Lp & Up). destruct (dim30_Q _ Hoh) as (Q1 & Q2 & _).
+  destruct (ofZ_ok SM oh ltac:(destruct Hoh; lia)) as [Fo Vo].
+  assert (R : Qabs (v (ofZ oh) * v (pixel_ratio fam e)) <= fbig).
+  { rewrite Vo. assert (0 < itwo 32) by qdec. rewrite Qabs_pos by nra.
+    apply Qle_trans with (two 30 * two 32); [|qdec]. apply Qmul_le_mono; lra. }
+  destruct (mul_ok SM _ _ Fo Fp R) as [_ Vm].
+  apply rhe_comp. rewrite Vm. apply (rnd_comp SM). rewrite Vo. reflexivity.
+Qed.
+
+(** for graphics-based styles the pixel ratio is 1: the scaled height is [oh] itself *)
+Lemma original_hpx_graphics : forall (e : env FA) oh, dim30 oh -> original_hpx Graphics e oh = oh.
+Proof.
+  intros e oh Hoh. unfold original_hpx. cbn [pixel_ratio].
+  destruct (ofZ_ok SM 1 ltac:(vm_compute; discriminate)) as [F1 V1].
+  destruct (ofZ_ok SM oh ltac:(destruct Hoh; lia)) as [Fo Vo].
+  destruct (dim30_Q _ Hoh) as (Q1 & Q2 & _).
+  assert (E : v (ofZ oh) * v (ofZ 1) == QZ oh) by (rewrite Vo, V1; change (QZ 1) with 1; ring).
+  assert (R : Qabs (v (ofZ oh) * v (ofZ 1)) <= fbig).
+  { rewrite E, Qabs_pos by lra. apply Qle_trans with (two 30); [assumption|qdec]. }
+  destruct (mul_ok SM _ _ Fo F1 R) as [Fm Vm].
+  rewrite (fround_rhe SM _ Fm).
+  assert (Ev : v (fmul (ofZ oh) (ofZ 1)) == QZ oh).
+  { rewrite Vm, (rnd_comp SM _ _ E). apply rnd_Z. destruct Hoh. lia. }
+  rewrite (rhe_comp _ _ Ev). apply rhe_Z.
+Qed.
+
+Lemma auto_spec : forall fam (e : env FA) ow oh frame, Dom fam e ow oh frame ->
+  let '(a, b) := valid_size fam e ow oh (DSize AUTO) DNone frame in
+  (0 < a)%Z /\ (0 < b)%Z /\ (a <= columns e frame)%Z /\ (b <= lines e frame)%Z.
+Proof.
+  intros fam e ow oh frame D. rewrite auto_original_iff_fits.
+  destruct ((ow <=? fwpx fam e frame) && (original_hpx fam e oh <=? fhpx fam e frame))%Z eqn:E.
+  - apply andb_prop in E. destruct E as [E1 E2]. apply Z.leb_le in E1, E2.
+    rewrite valid_size_original.
+    destruct (frame_cells _ _ _ _ _ D) as (C1 & L1 & Rc & Rl).
+    destruct D as [[How Hoh Hc Hr] Hfw Hfh].
+    pose proof (pr_ok fam e Hc Hr) as Hpr.
+    pose proof (original_hpx_nonneg (pr_of fam e) oh Hoh Hpr) as P0.
+    change (0 <= original_hpx fam e oh)%Z in P0.
+    assert (B53 : (fhpx fam e frame <= 2 ^ 53)%Z) by (destruct Hfh; lia).
+    destruct How.
+    split; [apply or1_pos, cols_of_px_nonneg; [assumption|lia]|].
+    split; [apply or1_pos, lines_of_px_nonneg; [assumption|lia]|].
+    split.
+    + apply or1_le; [|assumption]. rewrite <- Rc. apply cols_mono; assumption.
+    + apply or1_le; [|assumption]. rewrite <- Rl. apply lines_mono; try assumption; lia.
+  - pose proof (fit_spec fam e ow oh frame D) as S.
+    destruct (valid_size fam e ow oh (DSize FIT) DNone frame) as [a b].
+    destruct S as (S1 & S2 & S3 & S4 & _). auto.
+Qed.
+
+(** FIT_TO_WIDTH (common.py:1766-1775) *)
+Lemma valid_size_ftw : forall fam (e : env FA) ow oh frame,
+  valid_size fam e ow oh (DSize FIT_TO_WIDTH) DNone frame =
+  (or1 (cols_of_px fam e (fwpx fam e frame)),
+   or1 (lines_of_px fam e (fround (fmul (whpx_w ow oh (fwpx fam e frame)) (pr_of fam e))))).
+Proof. reflexivity. Qed.
+
+Lemma fit_to_width_spec : forall fam (e : env FA) ow oh frame, Dom fam e ow oh frame ->
+  HX (pr_of fam e) ow oh (fwpx fam e frame) <= two 40 ->
+  let '(a, b) := valid_size fam e ow oh (DSize FIT_TO_WIDTH) DNone frame in
+  a = columns e frame /\ (0 < b)%Z /\
+  nearP b (HX (pr_of fam e) ow oh (fwpx fam e frame) / QZ (chp fam e)).
+Proof.
+  intros fam e ow oh frame D Hb. rewrite valid_size_ftw.
+  destruct (frame_cells _ _ _ _ _ D) as (C1 & L1 & Rc & Rl).
+  destruct D as [[How Hoh Hc Hr] Hfw Hfh].
+  pose proof (pr_ok fam e Hc Hr) as Hpr.
+  destruct (height_of_width_spec (pr_of fam e) ow oh _ How Hoh Hfw Hpr Hb) as ((P0 & P1) & Nl & Nh).
+  split; [rewrite Rc; apply or1_id; lia|].
+  split; [apply or1_pos, lines_of_px_nonneg; [assumption|lia]|].
+  apply lines_of_px_near; try assumption; lia.
+Qed.
+
+(** the exactness of FIT_TO_WIDTH's width needs no float reasoning at all *)
+Lemma fit_to_width_exact : forall fam (e : env FA) ow oh frame, cell_ok e ->
+  fst (valid_size fam e ow oh (DSize FIT_TO_WIDTH) DNone frame) = columns e frame.
+Proof.
+  intros fam e ow oh frame Hc. rewrite valid_size_ftw. cbn [fst].
+  unfold fwpx. rewrite cols_roundtrip by assumption.
+  apply or1_id. pose proof (resolve_pos (fst frame) (e_cols e)). unfold columns. lia.
+Qed.
+
+(** a given width (common.py:1824-1832) *)
+Lemma valid_size_width : forall fam (e : env FA) ow oh wi frame,
+  valid_size fam e ow oh (DInt wi) DNone frame =
+  (or1 wi, or1 (lines_of_px fam e
+                  (fround (fmul (whpx_w ow oh (px_of_cols fam e wi)) (pr_of fam e))))).
+Proof. reflexivity. Qed.
+
+Lemma given_width_kept : forall fam (e : env FA) ow oh wi frame, (0 < wi)%Z ->
+  fst (valid_size fam e ow oh (DInt wi) DNone frame) = wi.
+Proof. intros. rewrite valid_size_width. cbn [fst]. apply or1_id. assumption. Qed.
+
+Lemma given_width_spec : forall fam (e : env FA) ow oh wi frame, Dom0 e ow oh ->
+  dim30 (px_of_cols fam e wi) -> (0 < wi)%Z ->
+  HX (pr_of fam e) ow oh (px_of_cols fam e wi) <= two 40 ->
+  let '(a, b) := valid_size fam e ow oh (DInt wi) DNone frame in
+  a = wi /\ (0 < b)%Z /\
+  nearP b (HX (pr_of fam e) ow oh (px_of_cols fam e wi) / QZ (chp fam e)).
+Proof.
+  intros fam e ow oh wi frame [How Hoh Hc Hr] Hw Hpos Hb. rewrite valid_size_width.
+  pose proof (pr_ok fam e Hc Hr) as Hpr.
+  destruct (height_of_width_spec (pr_of fam e) ow oh _ How Hoh Hw Hpr Hb) as ((P0 & P1) & Nl & Nh).
+  split; [apply or1_id; assumption|].
+  split; [apply or1_pos, lines_of_px_nonneg; [assumption|lia]|].
+  apply lines_of_px_near; try assumption; lia.
+Qed.
+
+(** a given height (common.py:1818-1823, 1832) *)
+Lemma valid_size_height : forall fam (e : env FA) ow oh hi frame,
+  valid_size fam e ow oh DNone (DInt hi) frame =
+  (or1 (cols_of_px fam e
+          (fround (fdiv (whpx_h ow oh (px_of_lines fam e hi)) (pr_of fam e)))), or1 hi).
+Proof. reflexivity. Qed.
+
+Lemma given_height_kept : forall fam (e : env FA) ow oh hi frame, (0 < hi)%Z ->
+  snd (valid_size fam e ow oh DNone (DInt hi) frame) = hi.
+Proof. intros. rewrite valid_size_height. cbn [snd]. apply or1_id. assumption. Qed.
+
+Lemma given_height_spec : forall fam (e : env FA) ow oh hi frame, Dom0 e ow oh ->
+  dim30 (px_of_lines fam e hi) -> (0 < hi)%Z ->
+  WX (pr_of fam e) ow oh (px_of_lines fam e hi) <= two 40 ->
+  let '(a, b) := valid_size fam e ow oh DNone (DInt hi) frame in
+  b = hi /\ (0 < a)%Z /\
+  nearP a (WX (pr_of fam e) ow oh (px_of_lines fam e hi) / QZ (cwp fam e)).
+Proof.
+  intros fam e ow oh hi frame [How Hoh Hc Hr] Hh Hpos Hb. rewrite valid_size_height.
+  pose proof (pr_ok fam e Hc Hr) as Hpr.
+  destruct (width_of_height_spec (pr_of fam e) ow oh _ How Hoh Hh Hpr Hb) as ((P0 & P1) & Nl & Nh).
+  split; [apply or1_id; assumption|].
+  split; [apply or1_pos, cols_of_px_nonneg; [assumption|lia]|].
+  apply cols_of_px_near; try assumption; lia.
+Qed.
+
+(** where the Size member is passed (width or height), and [None, None] = FIT *)
+Definition auto_mode (w h : dim) : option smode :=
+  match w, h with
+  | DSize s, DNone | DNone, DSize s => Some s
+  | DNone, DNone => Some FIT
+  | _, _ => None
+  end.
+Lemma valid_size_mode : forall fam (e : env FA) ow oh w h m frame, auto_mode w h = Some m ->
+  valid_size fam e ow oh w h frame = valid_size fam e ow oh (DSize m) DNone frame.
+Proof.
+  intros fam e ow oh w h m frame Hm.
+  destruct w as [|wi|s|], h as [|hi|t|]; try discriminate; cbn in Hm; inversion Hm; subst; clear Hm.
+  - reflexivity.
+  - destruct m; reflexivity.
+  - reflexivity.
+Qed.
+
 End Proofs.
+
+(** ------------------------------------------------------------------------------
+    Non-vacuity.  (1) [StandardModel] is satisfiable: exact rational arithmetic
+    ([rnd] = identity) is an instance, so the theorems above are not vacuous because of
+    an inconsistent assumption.  (2) The domain hypotheses hold on a concrete, ordinary
+    state (a 288x288 source in an 80x30 terminal, cell ratio 1/2), where FIT gives the
+    familiar 56x28. *)
+Definition ExactFA : FloatArith :=
+  {| F := Q; ofZ := inject_Z; fmul := Qmult; fdiv := Qdiv;
+     fltb := fun a b => negb (Qle_bool b a); fleb := Qle_bool;
+     fround := rhe; fceil := Qceiling |}.
+
+Section Exact.
+Let fin_ (x : Q) : Prop := True.
+Let val_ (x : Q) : Q := x.
+Let rnd_ (x : Q) : Q := x.
+Lemma ex_rnd_comp : forall x y, x == y -> rnd_ x == rnd_ y. Proof. intros x y E. exact E. Qed.
+Lemma ex_rnd_mono : forall x y, x <= y -> rnd_ x <= rnd_ y. Proof. intros x y E. exact E. Qed.
+Lemma ex_rnd_err : forall x, fsmall <= Qabs x -> Qabs x <= fbig ->
+  Qabs (rnd_ x - x) <= ulp_rel * Qabs x.
+Proof.
+  intros x _ _. unfold rnd_. assert (E : x - x == 0) by ring. rewrite (Qabs_wd _ _ E).
+  change (Qabs 0) with 0. pose proof (Qabs_nonneg x). assert (0 < ulp_rel) by qdec. nra.
+Qed.
+Lemma ex_ltb : forall a b : Q, fin_ a -> fin_ b -> (negb (Qle_bool b a) = true <-> val_ a < val_ b).
+Proof.
+  intros a b _ _. unfold val_. split; intro H1.
+  - apply Qnot_le_lt. intro C. apply Qle_bool_iff in C. rewrite C in H1. discriminate.
+  - destruct (Qle_bool b a) eqn:E; [|reflexivity]. apply Qle_bool_iff in E. lra.
+Qed.
+Lemma ex_leb : forall a b : Q, fin_ a -> fin_ b -> (Qle_bool a b = true <-> val_ a <= val_ b).
+Proof. intros a b _ _. apply Qle_bool_iff. Qed.
+
+Definition exact_standard_model : StandardModel ExactFA :=
+  @Build_StandardModel ExactFA fin_ val_ rnd_ ex_rnd_comp ex_rnd_mono
+    (fun m e _ _ => Qeq_refl _) ex_rnd_err (fun a _ => Qeq_refl _)
+    (fun z _ => conj I (Qeq_refl _)) (fun a b _ _ _ => conj I (Qeq_refl _))
+    (fun a b _ _ _ _ => conj I (Qeq_refl _)) ex_ltb ex_leb
+    (fun a _ => eq_refl) (fun a _ => eq_refl).
+End Exact.
+
+Definition ex_env : env ExactFA :=
+  @Build_env ExactFA 80 30 None (Some (1 # 2)) None.
+
+Example dom_nonvacuous :
+  Dom exact_standard_model Text ex_env 288 288 default_frame
+  /\ valid_size Text ex_env 288 288 (DSize FIT) DNone default_frame = (56, 28)%Z
+  /\ valid_size Text ex_env 288 288 (DSize AUTO) DNone default_frame = (56, 28)%Z
+  /\ valid_size Text ex_env 288 288 (DSize ORIGINAL) DNone default_frame = (288, 144)%Z.
+Proof.
+  split; [|vm_compute; auto].
+  assert (D288 : dim30 288) by (split; [discriminate|reflexivity]).
+  constructor; [constructor|..].
+  - exact D288.
+  - exact D288.
+  - exact I.
+  - cbn. split; [exact I|]. split; qdec.
+  - split; [discriminate|reflexivity].
+  - split; [discriminate|reflexivity].
+Qed.
